@@ -176,6 +176,20 @@ func c05destroy(w *W, kind string, n int, ci int, dir string, console *chunkSink
 	_ = os.MkdirAll(dir, 0755)
 	cfg := map[string]string{"appender.u.type": "Discard", "logger.lg.tags": "c05tag"}
 	target := "dir"
+	if strings.HasPrefix(kind, "root-") {
+		// the events are served by the configured root logger (no logger lists the tag)
+		delete(cfg, "logger.lg.tags")
+		switch kind {
+		case "root-async-file":
+			cfg["appender.f.type"], cfg["appender.f.fileDir"], cfg["appender.f.fileName"] = "File", dir, "x.log"
+			cfg["logger.root.type"], cfg["logger.root.appenderRef.ref"], cfg["logger.root.bufferFullPolicy"] = "AsyncLogger", "f", "Block"
+		case "root-rolling-async":
+			cfg["logger.root.type"], cfg["logger.root.fileDir"], cfg["logger.root.fileName"], cfg["logger.root.rotation"] = "RollingFile", dir, "x.log", "h"
+			cfg["logger.root.async"], cfg["logger.root.bufferFullPolicy"] = "true", "Block"
+		case "root-file-logger":
+			cfg["logger.root.type"], cfg["logger.root.fileDir"], cfg["logger.root.fileName"] = "File", dir, "x.log"
+		}
+	}
 	switch kind {
 	case "async-file", "async-file-discard-policy":
 		cfg["appender.f.type"], cfg["appender.f.fileDir"], cfg["appender.f.fileName"] = "File", dir, "x.log"
@@ -449,7 +463,8 @@ func c05Worker(w *W) {
 		}
 	case "destroy":
 		kinds := []string{"async-file", "async-file-discard-policy", "async-console", "sync-file", "sync-rollingappender", "file-logger", "console-logger", "discard-logger",
-			"rolling-sync", "rolling-sync-separate", "rolling-async", "rolling-async-separate", "rolling-async-layout", "rolling-async-discardoldest"}
+			"rolling-sync", "rolling-sync-separate", "rolling-async", "rolling-async-separate", "rolling-async-layout", "rolling-async-discardoldest",
+			"root-async-file", "root-rolling-async", "root-file-logger"}
 		for rep := 0; rep < int(w.Spec.N); rep++ {
 			for _, kind := range kinds {
 				ci++
@@ -536,7 +551,7 @@ func init() {
 	register(&Prop{
 		ID: "C05", Level: "exploration", MinDistinct: 100, Worker: c05Worker,
 		Rule: "(a) AsyncLogger (file appender behind a gate/slow/recording appender): every policy x buffer {100,101} x occupancy at Stop in {0,1,cap/2,cap-1,cap, 2 seeded others} (+1 extra item into the full buffer for the discard policies) x worker state {idle, parked mid-append, slowed}; Stop is called from a goroutine, the gate is opened, and the moment Stop returns the target file is read: exactly the accepted ids (queue model identifies DiscardOldest victims) must be present once, the counter must match, no descriptor may point into the log directory. " +
-			"(b) Destroy for 14 logger kinds/configurations reachable through Refresh (async/sync x file/console/rolling, File/Console/Discard/RollingFile logger kinds incl. async rolling with Block and DiscardOldest, separate, logger-level layout) with 0-3000 events: everything logged must be readable from the file/console stream right after Destroy returns, no descriptors left. " +
+			"(b) Destroy for 17 logger kinds/configurations (three of them as the configured root logger) reachable through Refresh (async/sync x file/console/rolling, File/Console/Discard/RollingFile logger kinds incl. async rolling with Block and DiscardOldest, separate, logger-level layout) with 0-3000 events: everything logged must be readable from the file/console stream right after Destroy returns, no descriptors left. " +
 			"(c) a running rolling file appender (1 s interval) with 2-8 writers crossing 3-5 real boundaries together (barrier at the interval check): <= 2 descriptors at every quiescent point, 0 after Stop. (d) Start/Write/Stop/Stop on every appender kind. Hangs are decided from goroutine dumps (call parked in the library), not deadlines. distinct_nontrivial = distinct parameter tuples that held.",
 		Assumptions: []string{"no log call is in progress when Stop/Destroy is called (statement's precondition)", "rolling-boundary interleavings are those the scheduler produced around real 1 s boundaries (rotations observed are reported)"},
 		Run: func(d *D) {
